@@ -29,7 +29,17 @@ func RunC13(tier string) int {
 		pf.NoCache = true
 		pf.MinTargets, pf.MaxTargets = 4, 9
 		s := spec.Gen(r, pf)
-		env, err := NewEnv(st.Base, fmt.Sprintf("c%d", i), st.Grog, st.Vctl, s, randCfg(r))
+		for _, t := range s.Targets {
+			if r.Chance(1, 3) && !t.HasTag("no-cache") {
+				t.FailIf = "markers/fail_" + t.Name
+			}
+		}
+		gcfg := randCfg(r)
+		minimal := r.Chance(1, 3)
+		if minimal {
+			gcfg.LoadOutputs = "minimal"
+		}
+		env, err := NewEnv(st.Base, fmt.Sprintf("c%d", i), st.Grog, st.Vctl, s, gcfg)
 		if err != nil {
 			run.Infra(err.Error())
 			return
@@ -46,7 +56,7 @@ func RunC13(tier string) int {
 		forcedWithRestoredDependants, consumed := false, false
 		lastTainted := map[string]bool{}
 		for k := 0; k <= steps; k++ {
-			cfg := BuildCfg{EnableCache: true}
+			cfg := BuildCfg{EnableCache: true, Minimal: minimal}
 			bo := BuildOpts{}
 			name := "cold"
 			if k > 0 {
@@ -69,8 +79,33 @@ func RunC13(tier string) int {
 						env.Taint[l] = true
 					}
 					name = "taint"
-				case x < 5:
+				case x < 4:
 					name = "noop"
+				case x < 5: // toggle an external failure cause of a (possibly tainted) target
+					var cands []*spec.Target
+					for _, t := range env.Spec.Targets {
+						if t.FailIf != "" {
+							cands = append(cands, t)
+						}
+					}
+					if len(cands) == 0 {
+						name = "noop"
+						break
+					}
+					t := rng.Pick(r, cands)
+					on := env.markerOn(t.FailIf)
+					env.SetMarker(t.FailIf, !on)
+					name = map[bool]string{true: "failure-cause-removed", false: "failure-cause-set"}[on]
+					env.Logf("%s: %s", name, t.FailIf)
+					if !on && r.Chance(1, 2) {
+						res := env.RunTaint([]string{t.Label()})
+						if res.Exit != 0 {
+							run.Infra("grog taint failed")
+							return
+						}
+						env.Taint[t.Label()] = true
+						name += "+taint"
+					}
 				case x < 6:
 					name = "cache-disabled-build"
 					cfg.EnableCache = false
